@@ -251,7 +251,7 @@ DETECT.update({
     "C08-k": (["C08"], "MISSED", "needed a verifying ledger that already holds the block's transactions: 1 block in 3 is judged after a sibling block of another proposer with the same transactions was confirmed (c08Shape.Known)"),
     "C09-k": (["C09"], "MISSED", "needed three or more contract-originated transfers in ONE transaction: the contract is now and then funded with 3-5 equal outputs and a program then transfers each of them (whichever output a selection takes first, all are consumed)"),
     "C15-k": (["C15"], "DETECTED", "adoptOrphans hands its reused scratch slice to the adopting node: the second adoption on a node overwrites the first adopter's children (node reachable twice)"),
-    "C17-k": (["C17"], "MISSED by the quick tier", "detected by the THOROUGH tier only (16 shards: a shard reports 'Walk(b8 -> b4) returned nil; model expects refusal: undo of b1 is at or below the irreversible height' after 565 histories); the quick tier (500 histories) missed it at seeds 1-3: needs slide window > 0, a multi-block walk that applies a height-raising block and is then aborted by a later invalid block, and afterwards a walk that undoes a block. Every ingredient is in C17's mix; no directed draw was added for lack of session time"),
+    "C17-k": (["C17"], "MISSED", "first missed by the quick tier at seeds 1-3 (the thorough tier caught it after 565 histories of one shard); needed the conjunction 'slide window > 0, a multi-block walk that applies a height-raising block and is aborted by a later invalid block, then an undoing walk' as a DIRECTED sequence of C17's mix (1 step in 12 on a windowed chain: valid block V on the tip, forged-award block I on V, Walk(I), walk back to the pointer's parent); CheckState's comparison of the irreversible height then fails after 9 histories"),
     "C18-k": (["C18"], "MISSED", "needed more than 255 later writers of one key between a snapshot block and the key's newest version - histories of 30 steps write a key a dozen times at most: new sub-check long-version-chain (a key written once, a snapshot block, then ONE peer block with 258-300 self-payments that each rewrite the key; every ancestor snapshot compared with the model)"),
     "C20-k": (["C20"], "MISSED", "needed more than 4096 distinct messages handled by ONE dispatcher inside the de-duplication window: new sub-check dispatch-traffic (4 500 - 9 000 distinct messages to 1-3 subscribers, every message dispatched a second time 0-400 messages later, exactly-once delivery; a repeat is only judged when it was dispatched less than 1 s after the first copy)"),
 })
